@@ -196,3 +196,45 @@ package routing
 //@   site call newRoute as newroute-domain: domain arg(blindedPathSet) == nil && forallq(k, 0, len(arg(pathEdges)), arg(pathEdges)[k] != nil && arg(pathEdges)[k].policy != nil)
 //@   site call newRoute as route-from-the-path-found: assert arg(0) == req.Source && arg(1) == retn(findPath, 0) && retn(findPath, 2) == nil
 //@   site call newRoute as final-hop-from-the-request: assert arg(3).amt == req.Amount && arg(3).totalAmt == req.Amount && arg(3).cltvDelta == req.FinalExpiry
+//@
+//@ // ---- the payment lifecycle drives the payment store with ITS payment's identifier and with the id of the attempt it is handling:
+//@ // ---- an attempt is registered before it is sent, it is sent under its own id with the route's first-hop amount and total time lock,
+//@ // ---- and it is settled / failed in the store under that same id
+//@ func (p *paymentLifecycle) registerAttempt
+//@   props C16
+//@   loop * havoc
+//@   requires rt != nil && forallq(k, 0, len(rt.Hops), rt.Hops[k] != nil)
+//@   site call createNewPaymentAttempt: assert arg(1) == rt && arg(2) == (ret(ReceiverAmt) == remainingAmt)
+//@   site call RegisterAttempt: assert arg(2) == p.identifier && arg(3) == addr(retn(createNewPaymentAttempt, 0).HTLCAttemptInfo) &&
+//@        retn(createNewPaymentAttempt, 1) == nil
+//@
+//@ func (p *paymentLifecycle) sendAttempt
+//@   props C16 C19
+//@   loop * havoc
+//@   site call SendHTLC: assert arg(2) == attempt.AttemptID && arg(3).Amount == ret(Int) &&
+//@        arg(3).Expiry == rt.TotalTimeLock && retn(OnionBlob, 1) == nil
+//@   site call failAttempt: assert arg(2) == attempt.AttemptID
+//@   site call handleSwitchErr: assert arg(2) == attempt
+//@
+//@ func (p *paymentLifecycle) failAttempt
+//@   props C16
+//@   loop * havoc
+//@   site call FailAttempt: assert arg(2) == p.identifier && arg(3) == attemptID && ret(CancelShard) == nil
+//@   site call CancelShard: assert arg(1) == attemptID
+//@
+//@ func (p *paymentLifecycle) handleAttemptResult
+//@   props C16
+//@   loop * havoc
+//@   site call SettleAttempt: assert arg(2) == p.identifier && arg(3) == attempt.AttemptID && entry(result).Error == nil
+//@   site call handleSwitchErr: assert arg(2) == attempt && arg(3) == entry(result).Error && entry(result).Error != nil
+//@
+//@ func (p *paymentLifecycle) reloadPayment
+//@   props C16
+//@   loop * havoc
+//@   site call FetchPayment: assert arg(2) == p.identifier
+//@
+//@ // the fee still available to new shards: the limit minus what the shards so far paid, never below zero (no unsigned wrap)
+//@ func (p *paymentLifecycle) calcFeeBudget
+//@   props C19
+//@   ensures result == max(0, p.feeLimit - feesPaid)
+//@   nowrap
